@@ -17,6 +17,15 @@ life cycle: overlay INSTANCES come and go on the shared endpoint (spec: insts / 
   switch.  R: every path of 3 events with a life-cycle event followed by a send (TunnelEndpoint_lc3.cfg), the simulated
   deep behaviours load/unload as well; exhaustive TLC run TunnelEndpoint_lc5.cfg; T: the random histories construct
   further real Community instances and run the real Community.unload().
+how a circuit ends: a circuit is taken down by Circuit.close() or by the real TunnelCommunity.remove_circuit() task,
+  with / without a reason text, remove_now, destroy (spec: CircuitClosing(i, way), CloseWays); remove_circuit leaves it in
+  the table until its remove_tunnel_delay timer fires (spec: due, RemovalDue; here: exactly that timer of the step loop
+  is fired, the clock moves to its deadline); Expire = the clock moves by max_time_inactive and the real do_remove()
+  takes the idle circuits down.  The abstract truth "taken down" is the harness's knowledge of the call it
+  made, what the object reports (Circuit.state) is compared with the implementation layer (st, StateFollowsClose).
+  R: every path of 3 events (and of 4 events with a due removal timer; thorough: every path of 4) that starts from a
+  ready circuit and has a take-down followed by an anonymised send (TunnelEndpoint_rm4.cfg; thorough also rm3.cfg), the d4 graph and the simulated behaviours take circuits down through the API as well;
+  exhaustive TLC run TunnelEndpoint_rm6.cfg; T: the random histories use every way and let removals become due.
 A replay that leaves the implementation layer is handed to the abstract layer as well: only what the abstract layer
 rejects is a violation; a mere difference in behaviour the statement leaves open is reported as a note.
 """
@@ -41,7 +50,9 @@ QCAP = 100
 LABELS = ("A", "B", "C")
 SITUATIONS = ["plain", "anon_detached", "anon_ready_circuit", "anon_ready_circuit_after_backlog", "anon_no_circuit",
               "anon_no_circuit_backlog_over_capacity", "open_shared_prefix", "anon_sender_unloaded", "anon_sibling_unloaded",
-              "anon_replacement_of_unloaded"]
+              "anon_replacement_of_unloaded", "anon_circuit_in_removal_window", "anon_after_removal_due",
+              "anon_circuit_expired_in_removal_window"]
+CLOSE_WAYS = ("close", "closeR", "remove", "removeR", "removeNow", "removeD")
 LIFECYCLE = ("Load", "Unload")
 MAX_INSTANCES = 7            # per recorded history
 _MARK = re.compile(rb"<C07-PKT-(\d{8})>")
@@ -125,8 +136,9 @@ class World:
 
     exceptions = [0, None]       # exceptions raised by the code under test: count, first
 
-    def __init__(self, lib, loop, insts, attached, cand):
-        """insts: [(label, anonymize)] - the overlay instances built at the start, in this order."""
+    def __init__(self, lib, loop, insts, attached, cand, circs0=()):
+        """insts: [(label, anonymize)] - the overlay instances built at the start, in this order.
+        circs0: circuits (model records) that exist when the behaviour starts."""
         self.lib, self.loop = lib, loop
         self.rec = lib.RecordingEndpoint()
         self.tep = lib.TunnelEndpoint(self.rec)
@@ -166,6 +178,14 @@ class World:
         self.next_real_cid = 1000
         self._raw_pos = [0 for _ in self.recs]
         self._sd_pos = 0
+        self.removals = []    # (real circuit id, remove_circuit task) in the order the calls were made
+        self.ndue = 0         # removal timers fired so far
+        for n, c in enumerate(circs0):
+            if c["closing"] or c["st"]:
+                raise MachineryError("C07: initial circuits of a behaviour are not closing")
+            self.add_circuit(c["goal"])
+            for _ in range(c["len"]):
+                self.hop_added(n + 1, c["flag"])
 
     def _construct(self, lab, anonymize):
         lib = self.lib
@@ -195,6 +215,7 @@ class World:
             return None
 
     def set_candidates(self, cand):
+        self.cand = cand
         self.tc.candidates.clear()
         if cand:
             self.tc.candidates[self.lib.exit_peer] = [self.lib.EXIT_IPV8]
@@ -270,10 +291,77 @@ class World:
         if len(c.hops) < c.goal_hops:
             c.unverified_hop = lib.Hop(lib.hop_peers[4 + (n + 1) % 4], flags=[lib.RELAY])
 
-    def closing(self, i):
+    def _run_new(self, before):
+        """Run the ready handles that were not queued `before` (the task step / done callbacks just caused); what
+        the overlays had pending before (their periodic tasks never start in this world) stays where it is."""
+        loop = self.loop
+        for _ in range(100000):
+            h = next((h for h in loop._ready if id(h) not in before), None)  # noqa: SLF001
+            if h is None:
+                return
+            loop.run_ready(h)
+        raise MachineryError("C07: ready queue does not empty")
+
+    def closing(self, i, way="closeR"):
+        """The circuit is taken down: on the object, or by the real remove_circuit() task run up to its sleep."""
         c = self.circuit_at(i)
-        self.real(c.close, "C07")
-        self.closed.add(c.circuit_id)
+        rid = c.circuit_id
+        if way == "close":
+            self.real(c.close)
+        elif way == "closeR":
+            self.real(c.close, "C07")
+        else:
+            a, k = {"remove": ((rid,), {}), "removeR": ((rid, "C07"), {}),
+                    "removeNow": ((rid,), {"remove_now": True}),
+                    "removeD": ((rid, "C07"), {"destroy": 1})}[way]
+            before = {id(h) for h in self.loop._ready}  # noqa: SLF001
+            t = self.real(self.tc.remove_circuit, *a, **k)
+            self._run_new(before)
+            if t is not None:
+                self.removals.append((rid, t))
+        self.closed.add(rid)
+
+    def pending_removals(self):
+        return [(rid, t) for rid, t in self.removals if not t.done()]
+
+    def removal_due(self):
+        """remove_tunnel_delay has passed for the earliest pending remove_circuit(): exactly its timer fires."""
+        pend = self.pending_removals()
+        if not pend:
+            raise IndexError("no removal is pending")
+        rid, t = pend[0]
+        waiter = getattr(t, "_fut_waiter", None)
+        h = next((h for h in self.loop.timers() if waiter is not None and any(a is waiter for a in (h._args or ()))),  # noqa: SLF001
+                 None)
+        if h is None:
+            raise IndexError("the pending removal does not wait for a timer")
+        before = {id(x) for x in self.loop._ready}  # noqa: SLF001
+        self.loop.fire_timer(h)
+        self._run_new(before)
+        self.ndue += 1
+        return rid
+
+    def expire(self):
+        """max_time_inactive passes without incoming traffic, then the periodic clean-up (the real do_remove) runs.
+        -> real ids of the circuits it took down (for which it started remove_circuit)."""
+        while self.pending_removals():           # remove_tunnel_delay is shorter: those timers fire on the way
+            self.removal_due()
+        self.loop._vt += self.tc.settings.max_time_inactive + 1  # noqa: SLF001  (no other timer fires: see assumptions)
+        known = set(self.tc._pending_tasks)  # noqa: SLF001
+        before = {id(h) for h in self.loop._ready}  # noqa: SLF001
+        self.real(self.tc.do_remove)
+        down = []
+        for name, t in list(self.tc._pending_tasks.items()):  # noqa: SLF001
+            frame = getattr(getattr(t, "get_coro", lambda: None)(), "cr_frame", None)
+            if name in known or frame is None or frame.f_code.co_name != "remove_circuit":
+                continue
+            rid = frame.f_locals.get("circuit_id")
+            self.removals.append((rid, t))
+            self.closed.add(rid)
+            down.append(rid)
+        self._run_new(before)
+        self.set_candidates(self.cand)           # do_remove forgets candidates that are no verified peers
+        return down
 
     def removed(self, i):
         self.tc.circuits.pop(self.circuit_at(i).circuit_id)
@@ -285,7 +373,7 @@ class World:
         for rid, c in self.tc.circuits.items():
             hops = c.hops
             circs.append({"goal": c.goal_hops, "len": len(hops), "closing": rid in self.closed or c.state == lib.CLOSING,
-                          "flag": bool(hops) and lib.EXIT_IPV8 in (hops[-1].flags or [])})
+                          "flag": bool(hops) and lib.EXIT_IPV8 in (hops[-1].flags or []), "rid": rid})
         return circs
 
     def observe(self):
@@ -297,7 +385,8 @@ class World:
             hops = c.hops
             circs.append(FrozenDict(id=self.cid_of[rid], goal=c.goal_hops, len=len(hops),
                                     closing=(rid in self.closed or c.state == lib.CLOSING),
-                                    flag=bool(hops) and lib.EXIT_IPV8 in (hops[-1].flags or [])))
+                                    flag=bool(hops) and lib.EXIT_IPV8 in (hops[-1].flags or []),
+                                    st=c.state == lib.CLOSING))
         out = []
         # the raw socket(s): a datagram that carries an application prefix, or an application packet in clear
         for n, ep in enumerate(self.recs):
@@ -321,6 +410,7 @@ class World:
                 "attached": self.tep.tunnel_community is not None,
                 "hopsCfg": self.tep.hops,
                 "circuits": tuple(circs), "ncirc": len(self.cid_of),
+                "due": tuple(self.cid_of.get(rid, 0) for rid, _t in self.pending_removals()),
                 "queue": queue, "nsent": self.nsent, "out": tuple(out)}
 
 
@@ -331,9 +421,10 @@ def event_json(act, args, proj):
     return e
 
 
-def trace_header(insts, attached, hops):
-    """insts: [(label, asked for anonymity at construction)] in order of construction."""
-    return {"insts": [{"p": lab, "req": bool(a)} for lab, a in insts], "attached": bool(attached), "hops": int(hops)}
+def trace_header(insts, attached, hops, circs=()):
+    """insts: [(label, asked for anonymity at construction)] in order of construction; circs: the table at the start."""
+    return {"insts": [{"p": lab, "req": bool(a)} for lab, a in insts], "attached": bool(attached), "hops": int(hops),
+            "circs": [dict(c) for c in circs]}
 
 
 def insts_of(st):
@@ -354,7 +445,7 @@ class Replayer:
         """steps: [(name, args, src_state, dst_state)].  True when the real objects stayed on the model.
         After the first difference the remaining actions are still executed (a wrong switch only shows at a later
         send) and the whole observed history goes to the abstract layer."""
-        w = World(self.lib, self.loop, insts_of(st0), st0["attached"], st0["cand"])
+        w = World(self.lib, self.loop, insts_of(st0), st0["attached"], st0["cand"], st0["circuits"])
         events, labels, ev_label = [], [], []
         first = None
         try:
@@ -379,10 +470,11 @@ class Replayer:
                     if d:
                         first = (list(labels), d)
             if first is not None:
-                tr = trace_header(insts_of(st0), st0["attached"], st0["hopsCfg"])
+                tr = trace_header(insts_of(st0), st0["attached"], st0["hopsCfg"], st0["circuits"])
                 tr["events"] = events
                 self.divergent.append({"trace": tr, "labels": first[0], "all_labels": labels, "diff": first[1],
-                                       "tag": tag, "cand": st0["cand"], "ev_label": ev_label})
+                                       "tag": tag, "cand": st0["cand"], "ev_label": ev_label,
+                                       "circs0": [dict(c) for c in st0["circuits"]]})
             return first is None
         finally:
             self.nwalks += 1
@@ -429,7 +521,11 @@ class Replayer:
         elif name == "HopAdded":
             w.hop_added(args[0], args[1])
         elif name == "CircuitClosing":
-            w.closing(args[0])
+            w.closing(args[0], args[1] if len(args) > 1 else "closeR")
+        elif name == "RemovalDue":
+            w.removal_due()
+        elif name == "Expire":
+            w.expire()
         elif name == "CircuitRemoved":
             w.removed(args[0])
         else:
@@ -442,7 +538,7 @@ def steps_of(g, walk):
     return [(g.edges[ei][1], g.edges[ei][2], g.states[g.edges[ei][0]], g.states[g.edges[ei][3]]) for ei in walk]
 
 
-def dumped_graph(ctx, cfgname, tag, lifecycle=False):
+def dumped_graph(ctx, cfgname, tag, lifecycle=False, removal=False):
     tmp = scratch_dir("c07-")
     try:
         dot = os.path.join(tmp, "g.dot")
@@ -451,6 +547,8 @@ def dumped_graph(ctx, cfgname, tag, lifecycle=False):
             raise MachineryError("TunnelEndpoint %s: TLC reports %s on the specification itself" % (cfgname, r.violated))
         ctx.add_tlc(tag, r)
         check_coverage(r, cfgname, lifecycle)
+        if removal and (r.coverage.get("RemovalDue", (0, 0))[0] == 0 or r.coverage.get("Expire", (0, 0))[0] == 0):
+            raise MachineryError("TunnelEndpoint %s: RemovalDue / Expire never changed the table" % cfgname)
         return parse_dot(dot)
     finally:
         shutil.rmtree(tmp, ignore_errors=True)
@@ -499,6 +597,62 @@ def replay_lifecycle(ctx, rp, cfgname, tag, depth, every):
     ctx.note("replay_" + tag, {"graph_states": len(g.states), "graph_edges": len(g.edges), "all_paths_depth": depth,
                                "paths_with_lifecycle_event": npaths, "only_with_later_send": not every,
                                "real_operations": rp.nops - ops0, "walks": rp.nwalks - walks0,
+                               "shapes": dict(sorted(kinds.items(), key=lambda kv: -kv[1])[:12])})
+
+
+def ViaRemove(way):  # noqa: N802  (name of the operator in TunnelEndpoint.tla)
+    return way.startswith("remove")
+
+
+def closing_then_send(steps):
+    """A circuit is taken down and an overlay whose switch is on sends afterwards: whether the circuit still counts
+    as ready for the endpoint becomes observable. -> the way it was taken down (None: no such pair)."""
+    for n, (name, args, src, dst) in enumerate(steps):
+        if name == "CircuitClosing" or (name == "Expire" and dst["due"]):
+            for name2, _a, _s, _d in steps[n + 1:]:
+                if name2 in ("SendAnon", "FillQueue"):
+                    return args[1] if name == "CircuitClosing" else "expire"
+    return None
+
+
+def replay_removal(ctx, rp, cfgname, tag, depth, select):
+    """Every path of `depth` events of the end-of-circuit configuration (starts with a ready circuit, every way of
+    taking it down, removal timers) that takes a circuit down.  select = "all": every one of them; "send": those in
+    which an anonymised send follows the take-down; "send+due": those of them in which a removal timer fires."""
+    g = cfgname if not isinstance(cfgname, str) else dumped_graph(ctx, cfgname, tag, removal=True)
+    ops0, walks0, div0 = rp.nops, rp.nwalks, len(rp.divergent)
+    npaths, kinds, ways = 0, {}, {}
+    for init, walk in all_paths(g, depth):
+        names = [g.edges[e][1] for e in walk]
+        if "CircuitClosing" not in names and "Expire" not in names:
+            continue
+        steps = steps_of(g, walk)
+        way = closing_then_send(steps)
+        if select != "all" and (way is None or (select == "send+due" and "RemovalDue" not in names)):
+            continue
+        rp.run_walk(g.states[init], steps, tag + ":paths")
+        ctx.nontrivial((tag, tuple(walk)))
+        npaths += 1
+        ways[way] = ways.get(way, 0) + 1
+        key = ">".join(n for n in names if n in ("CircuitClosing", "RemovalDue", "CircuitRemoved", "Expire") or
+                       n.startswith("Send"))
+        kinds[key] = kinds.get(key, 0) + 1
+        if npaths == 1:
+            ctx.sample({"replayed_removal_walk": ["%s(%s)" % (g.edges[e][1], ",".join(map(str, g.edges[e][2])))
+                                                  for e in walk],
+                        "initial": {k: v for k, v in g.states[init].items() if k in ("insts", "attached", "circuits")}})
+        if len(rp.divergent) > div0 + 20:
+            break
+    if len(rp.divergent) == div0:
+        missing = [w for w in CLOSE_WAYS + ("expire",) if not ways.get(w) and (select != "send+due" or ViaRemove(w))]
+        missing += [k for k in (("CircuitClosing>SendAnon", "CircuitClosing>RemovalDue>SendAnon") if depth == 3 else
+                                ("CircuitClosing>SendAnon>RemovalDue>SendAnon",)) if not kinds.get(k)]
+        if missing:
+            raise MachineryError("C07: no replayed end-of-circuit path for %s" % missing)
+    ctx.note("replay_" + tag, {"graph_states": len(g.states), "graph_edges": len(g.edges), "all_paths_depth": depth,
+                               "paths_taking_a_circuit_down": npaths, "selected": select,
+                               "real_operations": rp.nops - ops0, "walks": rp.nwalks - walks0,
+                               "ways_followed_by_a_send": {str(k): v for k, v in ways.items()},
                                "shapes": dict(sorted(kinds.items(), key=lambda kv: -kv[1])[:12])})
 
 
@@ -572,7 +726,7 @@ def replay_simulated(ctx, rp, behaviours, depth):
         n += 1
         if n == 1:
             ctx.sample({"simulated_behaviour_first_steps": ["%s%s" % (s[0], list(s[1])) for s in steps[:12]]})
-    missing = [a for a in LIFECYCLE if not seen.get(a)]
+    missing = [a for a in LIFECYCLE + ("CircuitClosing", "RemovalDue", "Expire") if not seen.get(a)]
     if missing:
         raise MachineryError("C07: simulated behaviours never took %s" % missing)
     ctx.note("replay_simulate", {"behaviours": n, "depth": depth, "actions": seen})
@@ -580,9 +734,9 @@ def replay_simulated(ctx, rp, behaviours, depth):
 
 def check_coverage(r, cfgname, lifecycle=False):
     need = ["SendAnon", "SendPlain", "FillQueue", "ToggleAnon", "Attach", "Detach", "AddCircuit", "HopAdded",
-            "CircuitClosing", "CircuitRemoved"] + (list(LIFECYCLE) if lifecycle else [])
+            "CircuitClosing", "CircuitRemoved", "RemovalDue"] + (list(LIFECYCLE) if lifecycle else [])
     if "lc3.cfg" in cfgname:                 # the short life-cycle paths are made without circuits
-        need = [a for a in need if "Circuit" not in a and a != "HopAdded"]
+        need = [a for a in need if "Circuit" not in a and a not in ("HopAdded", "RemovalDue")]
     missing = [a for a in need if r.coverage.get(a, (0, 0))[1] == 0]
     if missing:
         raise MachineryError("TunnelEndpoint %s: actions never taken: %s" % (cfgname, missing))
@@ -659,6 +813,18 @@ def random_history(lib, loop, rng, length, stats):
                 for c in st)
 
         backlog = [0]     # anonymised sends made while attached without a right ready circuit since the last flush
+        gone = []         # model ids of the circuits a due removal took off the table
+        expired = set()   # real ids of the circuits the idle clean-up took down
+
+        def in_removal_window():
+            """-> model id of a circuit that would be the right one, was taken down by remove_circuit() and still
+            lingers in the table (its timer is pending), 0 if there is none."""
+            pend = {rid for rid, _t in w.pending_removals()}
+            for c in w.observe_circuits():
+                if c["closing"] and c["rid"] in pend and c["len"] >= c["goal"] >= 1 and c["flag"] and \
+                        c["goal"] == w.tep.hops:
+                    return w.cid_of.get(c["rid"], 0), c["rid"] in expired
+            return 0, False
 
         def send(i):
             # which situation is this (bookkeeping for the vacuity check only; the verdict is TLC's)
@@ -676,11 +842,23 @@ def random_history(lib, loop, rng, length, stats):
                 sit = "anon_no_circuit_backlog_over_capacity" if backlog[0] >= QCAP else "anon_no_circuit"
                 backlog[0] += 1
             stats[sit] += 1
+            mark = {}
             if kind == "anon":
                 for extra in book.lifecycle_situations(i):
                     stats[extra] += 1
+                if w.tep.tunnel_community is not None:
+                    wcid, by_expiry = in_removal_window()
+                    if wcid and not sit.startswith("anon_ready"):
+                        stats["anon_circuit_in_removal_window"] += 1
+                        mark["wcid"] = wcid
+                        if by_expiry:
+                            stats["anon_circuit_expired_in_removal_window"] += 1
+                            mark["xcid"] = wcid
+                    if gone:
+                        stats["anon_after_removal_due"] += 1
+                        mark["gone"] = gone[-1]
             k = w.send(i)
-            proj = log("send", {"i": i, "p": w.inst_lab[i - 1], "pkt": k})
+            proj = log("send", {"i": i, "p": w.inst_lab[i - 1], "pkt": k, **mark})
             stats["tunnel_emissions"] += sum(1 for o in proj["out"] if o["k"] == "tun")
             stats["longest_queue"] = max(stats["longest_queue"], len(proj["queue"]))
             if len(w.tc.circuits) > 6:
@@ -741,19 +919,34 @@ def random_history(lib, loop, rng, length, stats):
                 if ncirc < 5:
                     w.add_circuit(hops_pref if rng.random() < 0.7 else rng.choice([1, 2, 3]))
                     log("env", {})
-            elif x < 0.865:
+            elif x < 0.835:
                 cands = [i for i in range(1, ncirc + 1) if len(w.circuit_at(i).hops) < w.circuit_at(i).goal_hops]
                 if cands:
                     w.hop_added(rng.choice(cands), rng.random() < 0.75)
                     log("env", {})
+            elif x < 0.865:
+                if w.pending_removals():         # remove_tunnel_delay has passed for the earliest removal
+                    rid = w.removal_due()
+                    if rid in w.cid_of and rid not in w.tc.circuits:
+                        gone.append(w.cid_of[rid])
+                    log("env", {"what": "due"})
             elif x < 0.91:
-                if ncirc:
-                    w.closing(rng.randrange(1, ncirc + 1))
-                    log("env", {})
-            elif x < 0.96:
+                if ncirc:                        # taken down in any way (a closing circuit may be removed again)
+                    way = rng.choice(CLOSE_WAYS)
+                    stats["taken_down_" + way] = stats.get("taken_down_" + way, 0) + 1
+                    w.closing(rng.randrange(1, ncirc + 1), way)
+                    log("env", {"what": way})
+            elif x < 0.94:
                 if ncirc:
                     w.removed(rng.randrange(1, ncirc + 1))
                     log("env", {})
+            elif x < 0.952:                       # nothing comes in for max_time_inactive: the clean-up runs
+                was = set(w.tc.circuits)
+                down = w.expire()
+                expired.update(down)
+                gone.extend(w.cid_of[r] for r in was - set(w.tc.circuits) if r in w.cid_of)
+                stats["taken_down_expire"] = stats.get("taken_down_expire", 0) + len(down)
+                log("env", {"what": "expire"})
             else:
                 w.set_candidates(rng.random() < 0.5)
                 log("env", {})
@@ -841,6 +1034,7 @@ def judge_divergent(ctx, rp):
                       "layer rejects event %s = %s" % (" ".join(bad["labels"]), str(bad["diff"])[:400],
                                                        " ".join(bad["all_labels"]), l, json.dumps(ev)[:600]),
                       {"insts": bad["trace"]["insts"], "attached": bad["trace"]["attached"], "cand": bad["cand"],
+                       "circs0": bad["circs0"],
                        "actions": bad["all_labels"], "diff": bad["diff"], "event_index": l, "trace": bad["trace"]})
         # TLC names one rejected trace per run: judge the walks with another signature in the next round
         pending = [d for d in pending if sig_of(d) != sig_of(bad)]
@@ -886,6 +1080,19 @@ def corrupt(trace, how):
     if how.startswith("unload-"):
         return corrupt_after_unload(trace, how[7:])
     t = json.loads(json.dumps(trace))
+    if how in ("window", "gone", "expired"):
+        # the packet of an anonymised send travels over the circuit that lingers in the table after remove_circuit()
+        # ("window"; "expired": after the idle clean-up took it down) / that a due removal has taken off the table
+        # ("gone"): the history a code would record that
+        # does not treat a circuit that was taken down as not ready
+        key = {"window": "wcid", "gone": "gone", "expired": "xcid"}[how]
+        for n, e in enumerate(t["events"]):
+            if e["a"] == "send" and e.get(key):
+                e["out"] = [{"k": "tun", "pkt": e["pkt"], "cid": e[key]}]
+                e["queue"] = [q for q in e["queue"] if q != e["pkt"]]
+                t["events"] = t["events"][:n + 1]
+                return t
+        return None
     for i, e in enumerate(t["events"]):
         tun = [o for o in e["out"] if o["k"] == "tun"]
         if not tun:
@@ -918,7 +1125,8 @@ def run_replay_file(ctx, lib, loop, path):
         insts = [(r["p"], r["req"]) for r in rep["insts"]]
     else:                                    # files written before instances were modelled: one instance per prefix
         insts = sorted((k, v) for k, v in rep["initial"].items() if k in ("A", "B"))
-    w = World(lib, loop, insts, rep["attached"], rep["cand"])
+    circs0 = rep.get("circs0", [])
+    w = World(lib, loop, insts, rep["attached"], rep["cand"], circs0)
     rp = Replayer(ctx, lib, loop)
     events = []
     cur = {}                                 # the model's switch: ToggleAnon(p) calls set_anonymity(p, not cur[p])
@@ -943,7 +1151,7 @@ def run_replay_file(ctx, lib, loop, path):
             events.extend(evs)
     finally:
         w.cleanup()
-    tr = trace_header(insts, rep["attached"], 1 if rep["attached"] else 0)
+    tr = trace_header(insts, rep["attached"], 1 if rep["attached"] else 0, circs0)
     tr["events"] = events
     ok, _tid, l = validate_traces(ctx, [tr], "replay")
     ctx.evaluated(len(events))
@@ -967,14 +1175,19 @@ def run(tier, seed, replay=None):
     ctx.cov["rule"] = ("TLC enumerates every interleaving of 7 events (send by either overlay, toggle, attach/detach, "
                        "circuit added/hop added/closing/removed, queue fill) from every initial configuration, and "
                        "every interleaving of 5 (thorough 6) events that also load further overlay instances, unload "
-                       "instances and let loaded, replaced and unloaded instances send; graph "
+                       "instances and let loaded, replaced and unloaded instances send, and every interleaving of 6 "
+                       "(thorough 7) events after a ready circuit that is taken down in every way (Circuit.close / "
+                       "remove_circuit, with and without reason, remove_now, destroy) with its removal timer; graph "
                        "walks and simulated deep behaviours are executed on the real TunnelEndpoint/Community/"
                        "TunnelCommunity/Circuit objects and compared after every action; random real histories are "
                        "judged by the abstract layer. non-trivial = distinct replayed walks and distinct recorded "
                        "histories (each contains sends)")
     ctx.assumptions += ["the wrapped endpoint is a recording stub: what reaches its send() is 'the raw socket'",
-                        "circuits are brought to their states by add_hop()/close()/table removal on real Circuit "
-                        "objects, not by a network handshake",
+                        "circuits are brought to their states by add_hop() / close() / the real remove_circuit() task / "
+                        "table removal on real Circuit objects, not by a network handshake; of the timers only the "
+                        "removal timers of remove_circuit() fire (the retry timers of create_circuit never do); the "
+                        "periodic do_remove runs only as the Expire event, after which the harness restores the "
+                        "circuit candidates it had configured",
                         "an application never enables anonymity for the TunnelCommunity's own prefix"]
     if replay:
         return run_replay_file(ctx, lib, loop, replay)
@@ -995,13 +1208,21 @@ def run(tier, seed, replay=None):
         ("spec that ignores the circuit state violates TunnelledOnlyOverReadyRightCircuit",
          "TunnelEndpoint_anystate.cfg", lambda r: r.violated == "TunnelledOnlyOverReadyRightCircuit"),
         ("spec in which unloading an overlay instance switches anonymity of its prefix off violates NoRawForAnon",
-         "TunnelEndpoint_unloadclears.cfg", lambda r: r.violated == "NoRawForAnon")]
+         "TunnelEndpoint_unloadclears.cfg", lambda r: r.violated == "NoRawForAnon"),
+        ("spec in which a circuit taken down without a reason text keeps reporting READY violates "
+         "TunnelledOnlyOverReadyRightCircuit",
+         "TunnelEndpoint_reasondecides.cfg", lambda r: r.violated == "TunnelledOnlyOverReadyRightCircuit"),
+        ("spec in which a circuit taken down without a reason text keeps reporting READY violates StateFollowsClose",
+         "TunnelEndpoint_reasondecides_st.cfg", lambda r: r.violated == "StateFollowsClose")]
     if tier != "quick":
         spec_controls += [
             ("spec that ignores the circuit state does not refine the abstract layer",
              "TunnelEndpoint_anystate_abs.cfg", lambda r: r.violated is not None and r.violated != "deadlock"),
             ("spec in which unloading switches anonymity off does not refine the abstract layer",
-             "TunnelEndpoint_unloadclears_abs.cfg", lambda r: r.violated is not None and r.violated != "deadlock")]
+             "TunnelEndpoint_unloadclears_abs.cfg", lambda r: r.violated is not None and r.violated != "deadlock"),
+            ("spec in which a circuit taken down without a reason text keeps reporting READY does not refine the "
+             "abstract layer",
+             "TunnelEndpoint_reasondecides_abs.cfg", lambda r: r.violated is not None and r.violated != "deadlock")]
     only_t = os.environ.get("C07_ONLY_HISTORIES") == "1"     # self-test switch: binding T on its own
     ctl_futs = []
 
@@ -1035,7 +1256,8 @@ def run(tier, seed, replay=None):
                           "TunnelEndpoint.tla at event %s: %s" % (l, json.dumps(ev)[:600]),
                           {"event_index": l, "trace": {**bad, "events": bad["events"][:l]} if bad else None})
         else:
-            vac = [k for k in SITUATIONS if stats[k] == 0]
+            vac = [k for k in SITUATIONS if stats[k] == 0] + \
+                  [w for w in CLOSE_WAYS + ("expire",) if not stats.get("taken_down_" + w)]
             if vac:
                 raise MachineryError("C07: recorded histories never exercised %s" % vac)
             ctx.traces(len(traces))
@@ -1053,7 +1275,13 @@ def run(tier, seed, replay=None):
                      "raw": "history reporting an anonymised packet on the raw socket is rejected",
                      "wrong-circuit": "history reporting tunnel data over an unknown circuit is rejected",
                      "closing": "history reporting tunnel data over a closing circuit is rejected",
-                     "still-queued": "history reporting a packet both sent and still queued is rejected"}
+                     "still-queued": "history reporting a packet both sent and still queued is rejected",
+                     "window": "history in which a packet travels over a circuit that lingers in the table after "
+                               "remove_circuit() (removal timer pending) is rejected",
+                     "expired": "history in which a packet travels over a circuit that the clean-up took down after "
+                                "max_time_inactive (removal timer pending) is rejected",
+                     "gone": "history in which a packet travels over a circuit that a due removal took off the "
+                             "table is rejected"}
             if fut_ctl is None:
                 raise MachineryError("C07: no recorded history to corrupt for control %r"
                                      % controls[[b is None for b in bads].index(True)])
@@ -1066,16 +1294,20 @@ def run(tier, seed, replay=None):
     if only_t:
         exhaustive["exhaustive"] = tlc_bg("TunnelEndpoint_d4.cfg")
         start_controls()
-        hist = record_histories(40, 200, ("raw", "closing", "unload-sender", "unload-replacement"))
+        hist = record_histories(40, 200, ("raw", "closing", "unload-sender", "unload-replacement", "window", "gone",
+                                          "expired"))
         phase("record_histories")
     elif tier == "quick":
         exhaustive["exhaustive"] = tlc_bg("TunnelEndpoint_d7.cfg")
         g4 = pool.submit(dumped_graph, ctx, "TunnelEndpoint_d4.cfg", "d4")
-        hist = record_histories(40, 200, ("raw", "closing", "unload-sender", "unload-replacement"))
+        hist = record_histories(40, 200, ("raw", "closing", "unload-sender", "unload-replacement", "window", "gone",
+                                          "expired"))
         phase("record_histories")
         g4 = g4.result()                                           # the replays wait for this one only
         exhaustive["exhaustive_lifecycle"] = tlc_bg("TunnelEndpoint_lc5.cfg")
+        exhaustive["exhaustive_removal"] = tlc_bg("TunnelEndpoint_rm6.cfg")
         glc = pool.submit(dumped_graph, ctx, "TunnelEndpoint_lc3.cfg", "lc3", True)
+        grm = pool.submit(dumped_graph, ctx, "TunnelEndpoint_rm4.cfg", "rm4", False, True)
         sim = pool.submit(simulated_behaviours, ctx.seed, 250, 50)
         start_controls()
         # every path of 3 events, then the seeded part of the transition cover of 4 events (same dumped graph)
@@ -1083,15 +1315,20 @@ def run(tier, seed, replay=None):
         phase("replay_paths_and_cover")
         replay_lifecycle(ctx, rp, glc.result(), "lc3", 3, every=False)
         phase("replay_lifecycle")
+        # one overlay, a ready circuit at the start: take-down then send (3 events), ... and a due timer (4 events)
+        replay_removal(ctx, rp, grm.result(), "rm4", 3, "send")
+        replay_removal(ctx, rp, grm.result(), "rm4d", 4, "send+due")
+        phase("replay_removal")
         replay_simulated(ctx, rp, sim.result(), 50)
         phase("replay_simulated")
     else:
         exhaustive["exhaustive"] = tlc_bg("TunnelEndpoint_d8.cfg", timeout=7200)
         exhaustive["exhaustive_lifecycle"] = tlc_bg("TunnelEndpoint_lc6.cfg", timeout=7200)
+        exhaustive["exhaustive_removal"] = tlc_bg("TunnelEndpoint_rm7.cfg", timeout=7200)
         sim = pool.submit(simulated_behaviours, ctx.seed, 5000, 80)
         start_controls()
         hist = record_histories(300, 200, ("raw", "wrong-circuit", "closing", "still-queued", "unload-sender",
-                                           "unload-replacement"))
+                                           "unload-replacement", "window", "gone", "expired"))
         phase("record_histories")
         replay_graph(ctx, rp, "TunnelEndpoint_d4.cfg", "d4", 4, 0)          # every path of 4 events
         phase("replay_paths")
@@ -1099,6 +1336,9 @@ def run(tier, seed, replay=None):
         phase("replay_cover")
         replay_lifecycle(ctx, rp, "TunnelEndpoint_lc3t.cfg", "lc3", 3, every=True)
         phase("replay_lifecycle")
+        replay_removal(ctx, rp, "TunnelEndpoint_rm3.cfg", "rm3", 3, "all")       # two overlays
+        replay_removal(ctx, rp, "TunnelEndpoint_rm4.cfg", "rm4", 4, "send")      # one overlay
+        phase("replay_removal")
         replay_simulated(ctx, rp, sim.result(), 80)
         phase("replay_simulated")
     ctx.evaluated(rp.nops)
